@@ -32,13 +32,21 @@ func verifHarnessGenerateImports(n int) {
 	verifReach("end")
 }
 
+// verifMTyp is a token type: findMaximumAntichainSize touches types only through String().
+type verifMTyp struct{ name string }
+
+func (t *verifMTyp) Underlying() types.Type { return t }
+func (t *verifMTyp) String() string         { return t.name }
+
+var verifMTypNames = [...]string{"TA", "TB", "TC", "TD", "TE"}
+
 // verifHarnessAntichain: the pool count must not depend on the iteration order
 // of the edge map.
 func verifHarnessAntichain(n int) {
 	g := &Graph{edges: make(map[*node][]*edgeNode), reverseEdges: make(map[*node][]*node)}
 	nodes := make([]*node, n)
 	for i := range nodes {
-		nodes[i] = &node{providerSpec: &ProviderSpec{Provides: [][]types.Type{{&verifTyp{name: verifTypNames[i]}}}}}
+		nodes[i] = &node{providerSpec: &ProviderSpec{Provides: [][]types.Type{{&verifMTyp{name: verifMTypNames[i]}}}}}
 		g.nodes = append(g.nodes, nodes[i])
 	}
 	for i := 0; i < n; i++ {
@@ -66,7 +74,7 @@ func verifHarnessUsedImports(n int) {
 		if used {
 			want++
 		}
-		imps[verifTypNames[i]] = &Import{Name: verifTypNames[i], IsUsed: used}
+		imps[verifMTypNames[i]] = &Import{Name: verifMTypNames[i], IsUsed: used}
 	}
 	verifMapOrderFree(true)
 	got := GetUsedImports(imps)
